@@ -329,7 +329,35 @@ func (r *rwRT) ruleRangeDispatch() {
 func (r *rwRT) ruleIterType() {
 	c := r.c
 	c.min("RW.TMPL.ITERTYPE", 3)
-	fn := r.method("rewriter", "rewriteIter")
+	fn := r.w.MethodOpt(pathRw, "rewriter", "rewriteIter")
+	strFields := map[string]bool{}
+	if fn == nil {
+		// the pass under another name / as a method of a pass object of its own: the cursor callback of the package
+		// that asks the iterator-type predicate and edits the tree, and reaches none of the other lowerings
+		for _, f := range r.w.FuncsOf(pathRw) {
+			if f.Signature.Recv() == nil || f.Signature.Params().Len() != 2 || !strings.Contains(f.Signature.Params().At(0).Type().String(), "astutil.Cursor") {
+				continue
+			}
+			if r.passClassByReach(f.String()) == "iterType" {
+				fn = f
+			}
+		}
+		if fn == nil {
+			undecided("the pass that replaces the iterator type is not found (no cursor callback of package rewriter asks the iterator-type predicate and edits the tree)")
+		}
+		// the name package seq goes by is whatever string the pass object carries
+		rt := fn.Signature.Recv().Type()
+		if pt, ok := rt.(*types.Pointer); ok {
+			rt = pt.Elem()
+		}
+		if stt, ok := rt.Underlying().(*types.Struct); ok {
+			for i := 0; i < stt.NumFields(); i++ {
+				if b, ok := stt.Field(i).Type().Underlying().(*types.Basic); ok && b.Kind() == types.String {
+					strFields["r."+stt.Field(i).Name()] = true
+				}
+			}
+		}
+	}
 	c.fn(relName(fn))
 	pos := r.w.FnPos(fn)
 	for _, isIter := range []bool{true, false} {
@@ -339,6 +367,9 @@ func (r *rwRT) ruleIterType() {
 		// frame condition: the library calls made here (cursor, loader, go/types) cannot reach the rewriter's own fields
 		in.HavocKeep = func(key string) bool { return strings.HasPrefix(key, "r.") || strings.HasPrefix(key, "map:r.") }
 		in.Fields["r.seqImportedName"] = mkString("seq")
+		for k := range strFields {
+			in.Fields[k] = mkString("seq")
+		}
 		var cur AV = n
 		in.OnCall = wrapOnCall(in.OnCall, func(cc *CallCtx) []Answer {
 			if cc.Fn != nil && cc.Fn.Name() == "Node" && cc.Fn.Signature.Recv() != nil && strings.Contains(cc.Fn.Signature.Recv().Type().String(), "astutil.Cursor") {
